@@ -43,7 +43,7 @@ def h_single(B, cls="EOF", n=4, p=2, flags=None, weights=False, layout="2d", k=N
     # arbitrary scores with new sample labels
     ns = 2
     S = B.array((ns, k), "S", cplx)
-    sdim = "time" if layout != "multiindex" else None
+    sdim = dim if isinstance(dim, str) else None
     if sdim is not None:
         Sda = xr.DataArray(S, dims=(sdim, "mode"), coords={sdim: [100 + i for i in range(ns)], "mode": list(range(1, k + 1))})
         rec2 = B.completes("inverse_transform(S) runs", lambda: model.inverse_transform(Sda))
@@ -128,6 +128,7 @@ def configs(tier):
                     if cls == "ComplexEOF" and tier == "quick" and fl and w:
                         continue
                     add("h_single", f"{cls}|n{n}p{p}|{keyof(fl)}|w{int(w)}", cls=cls, n=n, p=p, flags=fl, weights=w)
+    add("h_single", "EOF|layout=2d-internal-names", cls="EOF", n=4, p=2, layout="2d-internal-names")
     for layout in ("3d-coslat", "dataset", "list", "2d-T", "3d-T"):
         fl = {"use_coslat": True} if layout == "3d-coslat" else {}
         add("h_single", f"EOF|layout={layout}", cls="EOF", n=4, p=4 if layout != "2d-T" else 2, layout=layout, flags=fl, weights=(layout in ("dataset", "list")))
